@@ -339,6 +339,10 @@ def build_cases(thorough):
             if f == "ppid" and v > 2 ** 31 - 1:
                 continue
             cases.append(("num", f, v))
+    # tick counts for which "times one hundredth" and "divided by one hundred" are different doubles
+    for f in ("utime", "stime", "cutime", "cstime", "blkio_ticks"):
+        for v in (35, 41, 57, 113, 70069):
+            cases.append(("num", f, v))
     for f in ("tty_nr",):
         for v in (0x0401, 0x8800, 0x0402, 0x8801, 0x8804, 0x88ff, 0x108800, 0x408800, 0x1008801, 0x108801, 0x8900):
             cases.append(("num", f, v))
